@@ -1,6 +1,162 @@
 /- helper lemmas for args_to_key and the memoize wrapper (C16) -/
 import DC.Model.Memo
+import DC.Proofs.Keys
 
 namespace DC.Memo
+
+/-! ### splitting a key at the first separator -/
+
+theorem split_at_none : ∀ (l₁ l₂ r₁ r₂ : List Tok), Tok.none ∉ l₁ → Tok.none ∉ l₂ →
+    l₁ ++ Tok.none :: r₁ = l₂ ++ Tok.none :: r₂ → l₁ = l₂ ∧ r₁ = r₂
+  | [], [], _, _, _, _, h => by simpa using h
+  | [], b :: l₂, _, _, _, h2, h => by
+    simp only [List.nil_append, List.cons_append, List.cons.injEq] at h
+    exact absurd (h.1 ▸ List.mem_cons_self) h2
+  | a :: l₁, [], _, _, h1, _, h => by
+    simp only [List.nil_append, List.cons_append, List.cons.injEq] at h
+    exact absurd (h.1 ▸ List.mem_cons_self) h1
+  | a :: l₁, b :: l₂, r₁, r₂, h1, h2, h => by
+    simp only [List.cons_append, List.cons.injEq] at h
+    have := split_at_none l₁ l₂ r₁ r₂ (fun hm => h1 (List.mem_cons_of_mem _ hm))
+      (fun hm => h2 (List.mem_cons_of_mem _ hm)) h.2
+    exact ⟨by rw [h.1, this.1], this.2⟩
+
+/-! ### enumFrom / keepArgs / keepKw with nothing ignored -/
+
+theorem filter_true' {α} : ∀ (l : List α), l.filter (fun _ => true) = l
+  | [] => rfl
+  | x :: xs => by simp
+
+theorem enumFrom_map_snd {α} : ∀ (i : Nat) (l : List α), (enumFrom i l).map (·.2) = l
+  | _, [] => rfl
+  | i, x :: xs => by simp [enumFrom, enumFrom_map_snd (i + 1) xs]
+
+theorem keepArgs_nil (args : List Arg) : keepArgs args [] = args := by
+  simp [keepArgs, filter_true', enumFrom_map_snd]
+
+theorem keepKw_nil (kw : Kwargs) : keepKw kw [] = isort (fun a b => a.1 < b.1) kw := by
+  have : (fun p : Nat × Arg => !([] : List Nat).contains p.1) = fun _ => true := by funext p; simp
+  rw [keepKw, this, filter_true']
+
+theorem keepKw_filter (kw : Kwargs) (ign : List Nat) :
+    keepKw (kw.filter (fun p => !ign.contains p.1)) [] = keepKw kw ign := by
+  simp [keepKw]
+
+/-! ### the flattened keyword part -/
+
+abbrev kwflat (k : Kwargs) : List Tok := k.flatMap (fun p => [Tok.val p.1, p.2.tok])
+
+theorem kwflat_length (k : Kwargs) : (kwflat k).length = 2 * k.length := by
+  induction k with
+  | nil => rfl
+  | cons x xs ih => simp only [kwflat, List.flatMap_cons, List.length_append, List.length_cons,
+      List.length_nil] at ih ⊢; omega
+
+theorem kwflat_inj : ∀ (k₁ k₂ : Kwargs), kwflat k₁ = kwflat k₂ →
+    k₁.map (fun p => (p.1, p.2.tok)) = k₂.map (fun p => (p.1, p.2.tok))
+  | [], [], _ => rfl
+  | [], b :: k₂, h => by simp [kwflat] at h
+  | a :: k₁, [], h => by simp [kwflat] at h
+  | a :: k₁, b :: k₂, h => by
+    simp only [kwflat, List.flatMap_cons, List.cons_append, List.nil_append, List.cons.injEq,
+      Tok.val.injEq] at h
+    have := kwflat_inj k₁ k₂ h.2.2
+    simp [h.1, h.2.1, this]
+
+/-- the key of a call with nothing ignored, in terms of the sorted keyword list -/
+theorem argsToKey_nil (base : List Tok) (a : List Arg) (k : Kwargs) (typed : Bool) :
+    argsToKey base a k typed [] [] =
+      (base ++ a.map (·.tok)) ++ Tok.none :: (kwflat (keepKw k []) ++
+        (if typed then a.map (fun x => Tok.ty x.ty) ++ (keepKw k []).map (fun p => Tok.ty p.2.ty) else [])) := by
+  simp [argsToKey, keepArgs_nil, kwflat]
+
+theorem map_ty_inj {α} (g : α → Nat) : ∀ (l₁ l₂ : List α),
+    l₁.map (fun x => Tok.ty (g x)) = l₂.map (fun x => Tok.ty (g x)) → l₁.map g = l₂.map g
+  | [], [], _ => rfl
+  | [], _ :: _, h => by simp at h
+  | _ :: _, [], h => by simp at h
+  | a :: l₁, b :: l₂, h => by
+    simp only [List.map_cons, List.cons.injEq, Tok.ty.injEq] at h
+    simp [h.1, map_ty_inj g l₁ l₂ h.2]
+
+/-- everything a key determines, when no positional token is the separator -/
+theorem key_parts (base : List Tok) (a₁ a₂ : List Arg) (k₁ k₂ : Kwargs) (typed : Bool)
+    (hb : ∀ t ∈ base, t ≠ Tok.none) (h₁ : ∀ a ∈ a₁, a.tok ≠ Tok.none) (h₂ : ∀ a ∈ a₂, a.tok ≠ Tok.none)
+    (h : argsToKey base a₁ k₁ typed [] [] = argsToKey base a₂ k₂ typed [] []) :
+    a₁.map (·.tok) = a₂.map (·.tok) ∧
+    (keepKw k₁ []).map (fun p => (p.1, p.2.tok)) = (keepKw k₂ []).map (fun p => (p.1, p.2.tok)) ∧
+    (typed = true → a₁.map (·.ty) = a₂.map (·.ty) ∧
+      (keepKw k₁ []).map (fun p => p.2.ty) = (keepKw k₂ []).map (fun p => p.2.ty)) := by
+  rw [argsToKey_nil, argsToKey_nil] at h
+  have hn : ∀ (a : List Arg), (∀ x ∈ a, x.tok ≠ Tok.none) → Tok.none ∉ base ++ a.map (·.tok) := by
+    intro a ha hm
+    rcases List.mem_append.1 hm with hm | hm
+    · exact hb _ hm rfl
+    · obtain ⟨x, hx, hxe⟩ := List.mem_map.1 hm
+      exact ha x hx hxe
+  obtain ⟨hl, hr⟩ := split_at_none _ _ _ _ (hn a₁ h₁) (hn a₂ h₂) h
+  have hA : a₁.map (·.tok) = a₂.map (·.tok) := List.append_cancel_left hl
+  have hlen : a₁.length = a₂.length := by simpa using congrArg List.length hA
+  generalize keepKw k₁ [] = K₁ at hr ⊢
+  generalize keepKw k₂ [] = K₂ at hr ⊢
+  cases typed with
+  | false =>
+    simp only [Bool.false_eq_true, if_false, List.append_nil] at hr
+    exact ⟨hA, kwflat_inj _ _ hr, by simp⟩
+  | true =>
+    simp only [if_true] at hr
+    have hL := congrArg List.length hr
+    simp only [List.length_append, kwflat_length, List.length_map] at hL
+    have hm : K₁.length = K₂.length := by omega
+    obtain ⟨hf, ht⟩ := List.append_inj hr (by rw [kwflat_length, kwflat_length, hm])
+    obtain ⟨hta, htk⟩ := List.append_inj ht (by simp [hlen])
+    exact ⟨hA, kwflat_inj _ _ hf, fun _ => ⟨map_ty_inj (fun x : Arg => x.ty) _ _ hta, map_ty_inj (fun p : Nat × Arg => p.2.ty) _ _ htk⟩⟩
+
+/-! ### keyword order -/
+
+theorem isort_kw_perm (k₁ k₂ : Kwargs) (hd : (k₁.map (·.1)).Nodup) (hp : k₁.Perm k₂) :
+    isort (fun (a b : Nat × Arg) => decide (a.1 < b.1)) k₁ = isort (fun a b => decide (a.1 < b.1)) k₂ := by
+  have hirr : ∀ a : Nat × Arg, decide (a.1 < a.1) = false := by simp
+  have htr : ∀ a b c : Nat × Arg, decide (a.1 < b.1) = true → decide (b.1 < c.1) = true →
+      decide (a.1 < c.1) = true := by
+    intro a b c; simp only [decide_eq_true_eq]; omega
+  have hc : ∀ k : Kwargs, (k.map (·.1)).Nodup →
+      k.Pairwise (fun a b => decide (a.1 < b.1) = true ∨ decide (b.1 < a.1) = true) := by
+    intro k hk
+    have := List.pairwise_map.1 hk
+    refine this.imp ?_
+    intro a b hne
+    simp only [decide_eq_true_eq]
+    omega
+  have hd₂ : (k₂.map (·.1)).Nodup := (hp.map _).nodup_iff.1 hd
+  apply sorted_ext _ hirr htr _ _ (isort_sorted_strict _ htr _ (hc _ hd)) (isort_sorted_strict _ htr _ (hc _ hd₂))
+  intro x
+  rw [mem_isort, mem_isort]
+  exact hp.mem_iff
+
+/-! ### the store -/
+
+theorem get_set_self {R} (c : Store R) (k : List Tok) (r : R) (e : Option Int) (now : Int) :
+    (c.set k r e).get k now = match e with
+      | none => some r
+      | some t => if t > now then some r else none := by
+  simp only [Store.get, Store.set, List.find?_cons, beq_self_eq_true]
+  cases e <;> rfl
+
+theorem get_set_other {R} (c : Store R) (k k' : List Tok) (r : R) (e : Option Int) (now : Int)
+    (hne : k' ≠ k) : (c.set k r e).get k' now = c.get k' now := by
+  have hf : ((k, r, e) :: c.filter (fun x => x.1 != k)).find? (fun x => x.1 == k') =
+      c.find? (fun x => x.1 == k') := by
+    rw [List.find?_cons]
+    have : ((k, r, e).1 == k') = false := by
+      simp only [beq_eq_false_iff_ne]; exact fun h => hne h.symm
+    rw [this]
+    simp only [List.find?_filter]
+    congr 1
+    funext x
+    by_cases hx : x.1 = k'
+    · simp [hx, hne]
+    · simp [hx]
+  simp only [Store.get, Store.set, hf]
 
 end DC.Memo
